@@ -806,7 +806,8 @@ std::optional<std::pair<Node_Multiplexer*, Node_Constant*>> followedByCompatible
 		cycleCheck.insert(nh.node());
 
 		if (auto *nextMuxNode = dynamic_cast<Node_Multiplexer*>(nh.node())) {
-			if (nextMuxNode->getNumInputPorts() == 3) {
+			// The chain must enter the next mux through its "false" data input (port 1), otherwise it is not a continuation of the chain.
+			if (nextMuxNode->getNumInputPorts() == 3 && nh.port() == 1) {
 				auto nextComparison = isComparisonWithConstant(nextMuxNode->getNonSignalDriver(0));
 				if (nextComparison)
 					if (nextComparison->second == comparisonSignal)
